@@ -74,6 +74,10 @@ class JWTBearerGrant(BaseGrant, TokenEndpointMixin):
             raise InvalidGrantError(
                 description=_error_description(e.description)
             ) from e
+        except ValueError as e:
+            # the key does not fit the algorithm named in the assertion header
+            log.debug("Assertion Error: %r", e)
+            raise InvalidGrantError(description="Invalid assertion") from e
         return claims
 
     def resolve_public_key(self, headers, payload):
